@@ -1,6 +1,84 @@
 import PgFdr.Json
+import PgFdr.Model.C16
 namespace PgFdr.Driver
 open Lean PgFdr
+
+def hexDigit (n : Nat) : Char := if n < 10 then Char.ofNat (48 + n) else Char.ofNat (87 + n)
+
+def hexOfBytes (b : C16.Bytes) : String :=
+  String.ofList (b.flatMap (fun x => [hexDigit (x.toNat / 16), hexDigit (x.toNat % 16)]))
+
+def hexVal (c : Char) : Option Nat :=
+  if '0' ≤ c ∧ c ≤ '9' then some (c.toNat - 48)
+  else if 'a' ≤ c ∧ c ≤ 'f' then some (c.toNat - 87)
+  else if 'A' ≤ c ∧ c ≤ 'F' then some (c.toNat - 55)
+  else none
+
+def bytesOfHexAux : List Char → Option C16.Bytes
+  | [] => some []
+  | [_] => none
+  | a :: b :: t => do
+    let x ← hexVal a
+    let y ← hexVal b
+    let r ← bytesOfHexAux t
+    pure (UInt8.ofNat (x * 16 + y) :: r)
+
+def jbytes (j : Json) : R C16.Bytes := do
+  let s ← jstr j
+  match bytesOfHexAux s.toList with
+  | some b => .ok b
+  | none => .error s!"bad hex string {s}"
+
+def ofBytesOpt : Option C16.Bytes → Json
+  | none => .null
+  | some b => .str (hexOfBytes b)
+
+def jbytesOpt (j : Json) : R (Option C16.Bytes) :=
+  match j with
+  | .null => .ok none
+  | _ => do pure (some (← jbytes j))
+
+def ofFOp : C16.FOp → Json
+  | .openTrunc p => .arr #[.str "open", .str p]
+  | .append p b => .arr #[.str "write", .str p, .str (hexOfBytes b)]
+  | .close p => .arr #[.str "close", .str p]
+  | .rename s d => .arr #[.str "rename", .str s, .str d]
+
+def jcrash (j : Json) : R (Option C16.Crash) :=
+  match j with
+  | .null => .ok none
+  | _ => do
+    let ops ← jnat (← jget j "ops")
+    let bytes ← match jgetOpt j "bytes" with
+      | some b => jnat b
+      | none => pure 0
+    pure (some { ops, bytes })
+
+def joutput (j : Json) : R C16.Output := do
+  pure { final := ← jstr (← jget j "final"), chunks := ← jlist jbytes (← jget j "chunks") }
+
+/-- `{"op":"fsrun","initial":[[path, hex|null]…],"outputs":[{"final":p,"chunks":[hex…]}…],
+      "runs":[null | {"ops":n,"bytes":k} …],"watch":[path…]}`
+    → `{"runs":[{"trace":[op…],"fs":[[path, hex|null]…]}…]}`: for every invocation of the history the
+    operations that took effect and the contents of the watched paths afterwards. -/
+def handleFsrun (j : Json) : R Json := do
+  let initial ← jlist (fun e => do
+      match e with
+      | .arr #[p, c] => pure ((← jstr p), (← jbytesOpt c))
+      | _ => .error "expected [path, content]") (← jget j "initial")
+  let outs ← jlist joutput (← jget j "outputs")
+  let runs ← jlist jcrash (← jget j "runs")
+  let watch ← jstrs (← jget j "watch")
+  let fs0 : C16.FS := initial.foldl (fun fs (e : String × Option C16.Bytes) => fs.set e.1 e.2) (fun _ => none)
+  let step (acc : C16.FS × List Json) (c : Option C16.Crash) : C16.FS × List Json :=
+    let fs := acc.1
+    let trace := C16.effective (C16.jobOps fs outs) c
+    let fs' := C16.runJob fs outs c
+    (fs', acc.2 ++ [obj [("trace", ofList ofFOp trace),
+                         ("fs", ofList (fun p => Json.arr #[.str p, ofBytesOpt (fs' p)]) watch)]])
+  let (_, res) := runs.foldl step (fs0, [])
+  pure (obj [("runs", .arr res.toArray)])
+
 /-- protocol handlers of property C16: (op name, handler) -/
-def handlersC16 : List (String × (Json → R Json)) := []
+def handlersC16 : List (String × (Json → R Json)) := [("fsrun", handleFsrun)]
 end PgFdr.Driver
